@@ -8,8 +8,11 @@ by plain protojson whatever their annotations (enum `MarshalJSON` methods are ne
 protojson either). This is expressed by evaluating the documented mapping on a request in which
 every annotation outside the top-level message has been erased (`implRq`).
 
-Not modelled (correspondence skipped, oracle only): the flatten and discriminated-oneof
-templates, which encode children through `encoding/json`.
+`wireEnc` covers the per-field ("surgery") templates and plain protojson. The templates that encode
+children through Go's `encoding/json` — flatten, discriminated oneof, map-value-unwrap container,
+root unwrap — are modelled value-exactly in `Sebuf/GoJson.lean` (`GoJson.serverEnc`, which falls
+back to `wireEnc` for everything else) and `Sebuf/GoDec.lean` (the decoders); `modelled` below is
+kept for the checks that still consult `wireEnc` alone (C07).
 -/
 namespace Sebuf.WireEnc
 open Sebuf Sebuf.Mapping
